@@ -374,6 +374,50 @@ Theorem C19_store_stays_content_addressed :
 Proof. exact pack_preserves_wf. Qed.
 Print Assumptions C19_store_stays_content_addressed.
 
+(* Which storage operations a call issues: Exists / Push of "{}" for descriptors Pack invented --
+   nothing else -- and then, at most, the push of the manifest. *)
+Theorem C19_operations_of_a_successful_call :
+  forall (marshal : manifest -> str) (H : str -> str), H empty_json = empty_json_digest ->
+  forall f tc fa s at_ o now s' d m,
+    pack marshal H f tc fa s at_ o now = (s', Ok d m) ->
+    exists evs, s_events s' = s_events s ++ evs ++ [EvPush RManifest d (marshal m)] /\
+                Forall (inv_ev H f at_ o) evs.
+Proof. exact ok_operations. Qed.
+Print Assumptions C19_operations_of_a_successful_call.
+
+Theorem C19_operations_of_a_failed_call :
+  forall (marshal : manifest -> str) (H : str -> str), H empty_json = empty_json_digest ->
+  forall f tc fa s at_ o now s' e,
+    pack marshal H f tc fa s at_ o now = (s', Err e) ->
+    exists evs, Forall (inv_ev H f at_ o) evs /\
+                (s_events s' = s_events s ++ evs \/
+                 exists d m, s_events s' = s_events s ++ evs ++ [EvPush RManifest d (marshal m)]).
+Proof. exact err_operations. Qed.
+Print Assumptions C19_operations_of_a_failed_call.
+
+(* Idempotence ("targets that already hold the blobs"): on a memory store, an OCI layout or a registry,
+   with or without Exists and whatever they held before, repeating a successful call with a fixed created
+   annotation returns the same descriptor and manifest and leaves the store exactly as it was. *)
+Theorem C19_repeat_call_changes_nothing :
+  forall (marshal : manifest -> str) (H : str -> str), H empty_json = empty_json_digest ->
+  forall f tc fa1 s at_ o now1 now2 s1 d m v s2 r2,
+    t_key tc <> KFile ->
+    ann_get (created_key f) (o_ann o) = Some v ->
+    pack marshal H f tc fa1 s at_ o now1 = (s1, Ok d m) ->
+    pack marshal H f tc None s1 at_ o now2 = (s2, r2) ->
+    r2 = Ok d m /\ s_store s2 = s_store s1.
+Proof. exact repeat_call_changes_nothing. Qed.
+Print Assumptions C19_repeat_call_changes_nothing.
+
+(* ... and the premise is needed: a file store refuses to write a named manifest twice. *)
+Theorem C19_repeat_call_file_store_refuted :
+  exists o s1 d m s2,
+    ann_get (created_key FArtifact) (o_ann o) = Some (b "2021-07-01T12:00:00Z") /\
+    pack lossy_marshal lossy_H FArtifact (mkTcfg true KFile) None (init_state []) [] o [50] = (s1, Ok d m) /\
+    pack lossy_marshal lossy_H FArtifact (mkTcfg true KFile) None s1 [] o [50] = (s2, Err EInjected).
+Proof. exact repeat_call_file_store_refuted. Qed.
+Print Assumptions C19_repeat_call_file_store_refuted.
+
 (* Identical inputs with a fixed created annotation give the identical descriptor and
    manifest on any two targets, contents, clocks and fault plans. *)
 Theorem C19_deterministic :
